@@ -732,6 +732,13 @@ def opaque_res(env, name, *args):
 
 
 @ghost()
+def opaque_ok(env, name, *args):
+    """the abstracted callee `name` returns (does not raise) on these arguments"""
+    ts = [env.to_val(a) for a in args]
+    return z3.Function(f"opq_ok_{name}", *([T.Val] * len(ts)), T.B)(*ts)
+
+
+@ghost()
 def mcalls(env, name):
     """how many times the path called method `name` on symbolic objects"""
     return sum(1 for c in env.st.calls if isinstance(c[0], str) and c[0] == name)
